@@ -13,7 +13,7 @@ use crate::uci::Flounder;
 use crate::zobrist::ZobristTable;
 use std::collections::{BTreeSet, HashMap, HashSet};
 
-fn jstr(s: &str) -> String { format!("\"{}\"", s.replace('\\', "\\\\").replace('"', "\\\"")) }
+fn jstr(s: &str) -> String { format!("\"{}\"", s.replace('\\', "\\\\").replace('"', "\\\"").replace('\n', "\\n")) }
 
 struct Report { name: String, evals: u64, distinct: u64, bound: String, violation: Option<String>, samples: Vec<String> }
 impl Report {
@@ -160,6 +160,8 @@ pub fn dispatch(cmd: &str, args: &[String]) -> i32 {
         "mate-in-one" => mate_in_one(args),
         "position-cmd" => position_cmd(args),
         "to-algebraic" => to_algebraic_all(args),
+        "uci-loop" => { Flounder::new().uci_loop(); 0 }
+        "uci-session" => uci_session(args),
         _ => { eprintln!("unknown command {}", cmd); 2 }
     }
 }
@@ -582,6 +584,64 @@ fn bestmove(args: &[String]) -> i32 {
         rep.distinct += 1;
     }
     rep.finish()
+}
+
+/// C03 at the process level: the real `uci_loop` (this binary run as a child with the command `uci-loop`, i.e. the real
+/// handle_command / handle_go_command and their println! lines) driven over pipes. After every `go` an `isready` follows;
+/// between the `go` and the `readyok` there must be exactly one line starting with `bestmove`, naming a legal move of the
+/// position last set (or 0000 iff there is none).
+fn uci_session(args: &[String]) -> i32 {
+    use std::io::{BufRead, BufReader, Write};
+    use std::process::{Command, Stdio};
+    let seed = seed_arg(args);
+    let n = num_arg(args, "positions", 40);
+    let mut rep = Report::new("uci-session", &format!("{} corpus positions (seed {}, <= 12 men, no pawn about to promote) + stalemate/checkmate positions, each x {{go depth 1, go depth 2, go movetime 0, go wtime 40 btime 40, go depth 1 after an earlier go on another position}} through the real uci_loop over pipes", n, seed));
+    let exe = std::env::current_exe().expect("exe");
+    let mut child = Command::new(exe).arg("uci-loop").stdin(Stdio::piped()).stdout(Stdio::piped()).stderr(Stdio::null()).spawn().expect("spawn");
+    let mut cin = child.stdin.take().unwrap();
+    let cout = child.stdout.take().unwrap();
+    let (tx, rx) = std::sync::mpsc::channel::<String>();
+    std::thread::spawn(move || { for l in BufReader::new(cout).lines() { if let Ok(l) = l { if tx.send(l).is_err() { break; } } else { break; } } });
+    let small = |p: &RPos| p.sq.iter().filter(|x| x.is_some()).count() <= 12 && !(8..16).any(|i| p.sq[i] == Some((Col::B, Pc::P))) && !(48..56).any(|i| p.sq[i] == Some((Col::W, Pc::P)));
+    let mut positions: Vec<RPos> = ["7k/5Q2/6K1/8/8/8/8/8 b - - 0 1", "7k/6Q1/6K1/8/8/8/8/8 b - - 0 1", "k7/8/1K6/8/8/8/8/7R w - - 0 1"].iter().filter_map(|f| parse_fen(f)).collect();
+    positions.extend(corpus(seed, 40, 24).into_iter().filter(|p| small(p)).take(n));
+    let gos = ["go depth 1", "go depth 2", "go movetime 0", "go wtime 40 btime 40 winc 0 binc 0", "go depth 1"];
+    let mut finish = |rep: Report, child: &mut std::process::Child, cin: &mut std::process::ChildStdin| { let _ = cin.write_all(b"quit\n"); let _ = cin.flush(); let _ = child.kill(); let _ = child.wait(); rep.finish() };
+    for (pi, p) in positions.iter().enumerate() {
+        let fen = to_fen(p);
+        let legal: BTreeSet<String> = legal_moves(p).iter().map(|m| m.uci()).collect();
+        for (gi, go) in gos.iter().enumerate() {
+            let mut script = String::new();
+            if gi == 4 { script.push_str("position startpos moves e2e4\ngo depth 2\n"); }
+            script.push_str(&format!("position fen {}\n{}\nisready\n", fen, go));
+            if cin.write_all(script.as_bytes()).is_err() || cin.flush().is_err() {
+                rep.violation = Some(format!("{{\"input\": {{\"script\": {}}}, \"real\": \"the engine process is gone\", \"expected\": \"one bestmove line\"}}", jstr(&script)));
+                return finish(rep, &mut child, &mut cin);
+            }
+            let mut best: Vec<String> = Vec::new();
+            let mut timed_out = false;
+            loop {
+                match rx.recv_timeout(std::time::Duration::from_secs(60)) {
+                    Ok(l) => { if l.trim() == "readyok" { break; } if l.starts_with("bestmove") { best.push(l); } }
+                    Err(_) => { timed_out = true; break; }
+                }
+            }
+            rep.evals += 1;
+            // the earlier `go` of round 4 answers with a line of its own
+            let mine: Vec<String> = if gi == 4 && !best.is_empty() { best[1..].to_vec() } else { best.clone() };
+            let ok = !timed_out && mine.len() == 1 && (gi != 4 || best.len() == 2) && {
+                let toks: Vec<&str> = mine[0].split_whitespace().collect();
+                toks.len() == 2 && (if legal.is_empty() { toks[1] == "0000" } else { legal.contains(toks[1]) })
+            };
+            if !ok {
+                rep.violation = Some(format!("{{\"input\": {{\"script\": {}}}, \"real\": {{\"bestmove_lines\": {:?}, \"timed_out\": {}}}, \"expected\": \"exactly one bestmove line per go, naming a legal move of the position last set (0000 iff none)\"}}", jstr(&script), best, timed_out));
+                return finish(rep, &mut child, &mut cin);
+            }
+        }
+        rep.distinct += 1;
+        if pi % 15 == 0 { rep.sample(jstr(&fen)); }
+    }
+    finish(rep, &mut child, &mut cin)
 }
 
 // ------------------------------------------------------------------------------------------------ C07
